@@ -20,6 +20,7 @@ EXPLANATION = (
     "Build-order symmetry decided structurally: (R08.1) the Record attributes that hold lists of CDSCollection "
     "subclasses (derived from the class hierarchy) are exactly the collections that _link_cds_to_parent visits when a "
     "gene arrives after the areas, each visit lies on every path through the function (no early exit can skip one), "
+    "nothing but the containment test stands between a member of such a list and add_cds, "
     "and each add_<area> links every gene returned by the within-location lookup when an area arrives after the "
     "genes; both directions set the gene's region for regions. (R08.2) CDSCollection.add_cds refuses a gene it does "
     "not contain before mutating, forwards to every child containing the gene, and a protocluster records a "
